@@ -28,7 +28,7 @@ def random_counts(n, rng):
     out = {}
     for b in keys:
         s = format(b, f"0{n}b")
-        out[tomo.spaced(list(s), rng)] = rng.randrange(1, 1000)
+        out[s] = rng.randrange(1, 1000)      # over the qubits; workers.device_counts formats the keys by the delivered circuit's own measurement layout
     return out
 
 
